@@ -32,26 +32,40 @@ structure VCfg where
       `wb[len(wb)-1].Key` after `batchSet` released (and reset) the entries: the lookup fails with
       ErrEmptyKey, `rewrite` returns that error and the file is NOT removed in this run. -/
   postCheckLive : Bool
+  /-- `rewrite.process`: when `lsm.Get(e.Key)` finds nothing, is the scanned record treated as live
+      and re-inserted?  As-is `false`: the code falls back to the value-log copy (`entry = e`), whose
+      meta never carries the pointer bit, so the unconditional `kv.DiscardEntry(e, entry)` drops it.
+      `true` = that DiscardEntry test no longer guards the miss branch. -/
+  gcMissIsLive : Bool
   deriving DecidableEq, Repr
 
 def VCfg.good : VCfg :=
-  { thresholdOp := .lt, rotateOp := .gt, gcFidOp := .ne, gcOffOp := .ne, gcChecksBucket := true, postCheckLive := false }
+  { thresholdOp := .lt, rotateOp := .gt, gcFidOp := .ne, gcOffOp := .ne, gcChecksBucket := true, postCheckLive := false,
+    gcMissIsLive := false }
 
 /-- The tree as read on the pinned commit. -/
 def VCfg.asis : VCfg := { VCfg.good with gcFidOp := .gt, gcOffOp := .gt }
 
 /-- liveness test = pointer equality (the repaired shape). -/
-def VCfg.LiveEq (c : VCfg) : Prop := c.gcFidOp = .ne ∧ c.gcOffOp = .ne ∧ c.gcChecksBucket = true
+def VCfg.LiveEq (c : VCfg) : Prop :=
+  c.gcFidOp = .ne ∧ c.gcOffOp = .ne ∧ c.gcChecksBucket = true ∧ c.gcMissIsLive = false
 instance VCfg.decLiveEq (c : VCfg) : Decidable c.LiveEq := by unfold VCfg.LiveEq; exact inferInstance
 
 /-- liveness test = "the LSM pointer is not newer than the scanned record" (as-is) or equality. -/
 def VCfg.LiveSeq (c : VCfg) : Prop :=
-  ((c.gcFidOp = .ne ∧ c.gcOffOp = .ne) ∨ (c.gcFidOp = .gt ∧ c.gcOffOp = .gt)) ∧ c.gcChecksBucket = true
+  ((c.gcFidOp = .ne ∧ c.gcOffOp = .ne) ∨ (c.gcFidOp = .gt ∧ c.gcOffOp = .gt)) ∧ c.gcChecksBucket = true ∧
+    c.gcMissIsLive = false
 instance VCfg.decLiveSeq (c : VCfg) : Decidable c.LiveSeq := by unfold VCfg.LiveSeq; exact inferInstance
 
 /-- as-is liveness operators -/
-def VCfg.LiveGt (c : VCfg) : Prop := c.gcFidOp = .gt ∧ c.gcOffOp = .gt ∧ c.gcChecksBucket = true
+def VCfg.LiveGt (c : VCfg) : Prop :=
+  c.gcFidOp = .gt ∧ c.gcOffOp = .gt ∧ c.gcChecksBucket = true ∧ c.gcMissIsLive = false
 instance VCfg.decLiveGt (c : VCfg) : Decidable c.LiveGt := by unfold VCfg.LiveGt; exact inferInstance
+
+/-- the miss branch of the liveness test re-inserts (a seeded / hypothetical shape), liveness otherwise exact -/
+def VCfg.MissLive (c : VCfg) : Prop :=
+  c.gcFidOp = .ne ∧ c.gcOffOp = .ne ∧ c.gcChecksBucket = true ∧ c.gcMissIsLive = true
+instance VCfg.decMissLive (c : VCfg) : Decidable c.MissLive := by unfold VCfg.MissLive; exact inferInstance
 
 /-- holds of every configuration (theorems that do not depend on any extracted decision) -/
 def VCfg.Any (_ : VCfg) : Prop := True
@@ -312,7 +326,7 @@ def readKV (s : St) (k : Bytes) (v : Nat) : Res :=
 /-- `rewrite.process`: is the scanned record (at offset `o` of file (b,f)) re-inserted? -/
 def liveTest (c : VCfg) (m : List LEnt) (b f o : Nat) (r : Rec) : Bool :=
   match lookup m r.key r.ver with
-  | none => false          -- falls back to the vlog copy, whose meta has no pointer bit ⇒ discarded
+  | none => c.gcMissIsLive -- as-is: falls back to the vlog copy, whose meta has no pointer bit ⇒ discarded
   | some e =>
     match e.v with
     | .inl _ _ => false    -- DiscardEntry: deleted, or not a value pointer
